@@ -127,6 +127,74 @@ func (s *summaries) mustPred(set objSet) callPred {
 	}
 }
 
+// successMust reports whether every return of fn that may report success is reached only through a
+// synchronous call of a function in set, made directly or through a static repository callee for which
+// the same holds.  Unlike mustCall it ignores the early error returns of fn and of the helpers: it is
+// the summary for "the helper did X whenever it reports success", which survives inlining the helper
+// into its caller and extracting it again.
+func (s *summaries) successMust(fn *ssa.Function, set objSet, m map[*ssa.Function]int) bool {
+	if fn == nil || fn.Blocks == nil {
+		return false
+	}
+	switch m[fn] {
+	case 1, 3:
+		return false
+	case 2:
+		return true
+	}
+	m[fn] = 1
+	escaped := false
+	nSuccess := 0
+	for _, ret := range core.Returns(fn) {
+		if core.ReturnSuccess(ret) != core.No {
+			nSuccess++
+		}
+	}
+	core.WalkForward(fn, nil, func(in ssa.Instruction) bool {
+		switch x := in.(type) {
+		case *ssa.Call:
+			if set.hasCallee(x) {
+				return false
+			}
+			if callee := x.Common().StaticCallee(); callee != nil && core.IsRepoPkg(core.FnPkgPath(callee)) {
+				if s.successMust(callee, set, m) {
+					return false
+				}
+			}
+		case *ssa.Return:
+			if core.ReturnSuccess(x) != core.No {
+				escaped = true
+			}
+		}
+		return true
+	})
+	if escaped || nSuccess == 0 {
+		m[fn] = 3
+		return false
+	}
+	m[fn] = 2
+	return true
+}
+
+// successMustPred matches synchronous calls that have executed a function of set whenever they report
+// success (directly, or through successMust summaries of repository callees).
+func (s *summaries) successMustPred(set objSet) callPred {
+	memo := map[*ssa.Function]int{}
+	return func(ci ssa.CallInstruction) bool {
+		call, ok := ci.(*ssa.Call)
+		if !ok {
+			return false
+		}
+		if set.hasCallee(call) {
+			return true
+		}
+		if callee := call.Common().StaticCallee(); callee != nil && core.IsRepoPkg(core.FnPkgPath(callee)) {
+			return s.successMust(callee, set, memo)
+		}
+		return false
+	}
+}
+
 // staticMayReach returns the set of repository functions from which a
 // function of set is reachable over static call edges (calls, go, defer,
 // and creation of closures).
